@@ -11,6 +11,16 @@ var commonAssumptions = []string{
 }
 
 func init() {
+	property(&Property{ID: "C14",
+		Rules: []string{"REV", "S6", "O1.history", "O5.clone"},
+		Explanation: "tbd",
+		Assumptions: commonAssumptions,
+	})
+	property(&Property{ID: "C15",
+		Rules: []string{"S7", "A5.copy", "O1.update", "O1.history"},
+		Explanation: "tbd",
+		Assumptions: commonAssumptions,
+	})
 	property(&Property{ID: "C18",
 		Rules: []string{"S5", "S1.yson", "S1", "N3", "CMP.order"},
 		Explanation: "Decides the escaping and dispatch structure of the YSON writer/reader, not the equality of round-tripped values. Decided: every dynamic string the writer interpolates is quoted (S5); the writer's primitive types, the importer's cases and crdt.NewPrimitive agree, every element kind is written, imported and parsed, every constructor the writer emits has a reader case (S1.yson, S1); no unchecked type assertion in the parse closure (N3); compaction compares the rebuilt content before replacing the log (CMP.order). Known findings (genuine, recorded, not repaired): the reader rewrites the whole input textually before tokenising, so constructor-like text and ')' inside string literals are corrupted (F8b), and a user object with a string member \"type\" is read as a typed value (F8d). Not decided: numeric round-trip (float64 vs int), dedup-counter state (F19).",
